@@ -6,6 +6,7 @@ import (
 	"go/constant"
 	"go/token"
 	"go/types"
+	"golang.org/x/tools/go/packages"
 	"os"
 	"sort"
 	"strings"
@@ -394,6 +395,14 @@ func ruleSibling9(c *Ctx) {
 		// path summaries (decisions, effects, results) after renaming the value-level names to the type-level ones
 		sigOf := func(fd *ast.FuncDecl, valSide bool) (string, bool) {
 			sigs, ok := c.pathSigs(fd, fd.Body, false)
+			if _, isLoop := fd.Body.List[0].(*ast.ForStmt); !ok || (len(fd.Body.List) == 1 && isLoop) {
+				// a walk up the parent chain written as a loop, `for v := recv; ; v = v.F { BODY }`, is the tail recursion
+				// `BODY[v:=recv]; return recv.F.M(params)`: summarise the body with v standing for the receiver and let the
+				// paths that fall off its end stand for the recursive call
+				if ls, lok := c.chainLoopSigs(fd); lok {
+					sigs, ok = ls, true
+				}
+			}
 			s := strings.Join(sigs, "\n")
 			if valSide {
 				r := strings.NewReplacer("val.FunVal", "types.FunTy", "p0:fun", "m:types.Type.Fun(p0)", "p0.Type", "p0", "val.Env.", "types.Env.")
@@ -518,4 +527,88 @@ func ruleSig2(c *Ctx) {
 			c.R.Anchor(sp + ".BuiltIn")
 		}
 	}
+}
+
+// chainLoopSigs: see ruleSibling9. ok=false unless the function body is exactly one such loop.
+func (c *Ctx) chainLoopSigs(fd *ast.FuncDecl) ([]string, bool) {
+	if fd.Recv == nil || len(fd.Recv.List) != 1 || len(fd.Recv.List[0].Names) != 1 || len(fd.Body.List) != 1 {
+		return nil, false
+	}
+	loop, ok := fd.Body.List[0].(*ast.ForStmt)
+	if !ok || loop.Cond != nil || loop.Init == nil || loop.Post == nil {
+		return nil, false
+	}
+	recv := c.objOf(fd.Recv.List[0].Names[0])
+	init, ok := loop.Init.(*ast.AssignStmt)
+	if !ok || len(init.Lhs) != 1 || len(init.Rhs) != 1 || init.Tok != token.DEFINE {
+		return nil, false
+	}
+	v := c.objOf(init.Lhs[0])
+	if id, ok := unparen(init.Rhs[0]).(*ast.Ident); !ok || c.objOf(id) != recv || v == nil {
+		return nil, false
+	}
+	post, ok := loop.Post.(*ast.AssignStmt)
+	if !ok || len(post.Lhs) != 1 || len(post.Rhs) != 1 || post.Tok != token.ASSIGN || c.objOf(post.Lhs[0]) != v {
+		return nil, false
+	}
+	se, ok := unparen(post.Rhs[0]).(*ast.SelectorExpr)
+	if !ok || c.objOf(se.X) != v {
+		return nil, false
+	}
+	// the loop variable is not assigned in the body
+	assigned := false
+	ast.Inspect(loop.Body, func(x ast.Node) bool {
+		if as, ok := x.(*ast.AssignStmt); ok {
+			for _, l := range as.Lhs {
+				if c.objOf(l) == v {
+					assigned = true
+				}
+			}
+		}
+		if b, ok := x.(*ast.BranchStmt); ok && b.Tok != token.CONTINUE {
+			assigned = true // break / goto: not the plain chain walk
+		}
+		return true
+	})
+	if assigned {
+		return nil, false
+	}
+	c.alias = map[types.Object]string{v: "r"}
+	defer func() { c.alias = nil }()
+	sigs, ok := c.pathSigs(fd, loop.Body, false)
+	if !ok {
+		return nil, false
+	}
+	// the recursive call the fall-through stands for
+	var ps []string
+	k := 0
+	for _, fl := range fd.Type.Params.List {
+		for range fl.Names {
+			ps = append(ps, fmt.Sprintf("p%d", k))
+			k++
+		}
+	}
+	pk := c.pkgOfDecl(fd)
+	callTerm := "m:" + fnName(pk, fd) + "(r." + se.Sel.Name
+	for _, p := range ps {
+		callTerm += "," + p
+	}
+	callTerm += ")"
+	for i, s := range sigs {
+		if strings.HasSuffix(s, " fall{}") {
+			sigs[i] = strings.TrimSuffix(s, " fall{}") + " return{" + callTerm + "}"
+		}
+	}
+	sort.Strings(sigs)
+	return sigs, true
+}
+
+func (c *Ctx) pkgOfDecl(fd *ast.FuncDecl) string {
+	res := ""
+	c.eachFuncDecl(func(pk *packages.Package, d *ast.FuncDecl) {
+		if d == fd {
+			res = short(pk.PkgPath)
+		}
+	})
+	return res
 }
